@@ -1090,7 +1090,11 @@ func (e *Engine) callStub(name string, recv Value, args []Value) Value {
 	case "bytes.NewBuffer":
 		return PtrV{cell: e.newCell(OpaqueV{kind: "bytes.Buffer", data: &bufState{b: args[0].(BytesV)}}, "bytes.Buffer")}
 	case "(*bytes.Buffer).Bytes":
-		return e.bufOf(args[0]).b
+		b := e.bufOf(args[0]).b
+		if pv, ok := args[0].(PtrV); ok && pv.cell != nil && b.obj != nil && b.obj.fromCell == nil {
+			b.obj.fromCell = pv.cell // provenance: the buffer's own storage (sync.Pool tracking: use after Put)
+		}
+		return b
 	case "(*bytes.Buffer).Reset":
 		st := e.bufOf(args[0])
 		st.b = BytesV{obj: st.b.obj, off: st.b.off, n: e.c64(0), cap: st.b.cap} // keeps the storage
